@@ -20,7 +20,7 @@ func init() {
 		Cases: func(tier string) int {
 			switch tier {
 			case "thorough":
-				return 1200000
+				return 2000000
 			case "race":
 				return 60000
 			}
